@@ -111,6 +111,8 @@ type Group struct {
 	history     []ChatHistoryEntry
 	timestamp   time.Time
 	data        map[string]interface{}
+	// set when the group has been removed from the table of groups
+	deleted bool
 }
 
 func (g *Group) Name() string {
@@ -599,16 +601,28 @@ func deleteUnlocked(g *Group) bool {
 	}
 
 	delete(groups.groups, g.name)
+	g.deleted = true
 	return true
 }
 
 func AddClient(group string, c Client, creds ClientCredentials) (*Group, error) {
-	g, err := Add(group, nil)
-	if err != nil {
-		return nil, err
-	}
+	var g *Group
+	for {
+		var err error
+		g, err = Add(group, nil)
+		if err != nil {
+			return nil, err
+		}
 
-	g.mu.Lock()
+		g.mu.Lock()
+		if !g.deleted {
+			break
+		}
+		// The group was empty and has been deleted since Add
+		// returned.  Joining it would make us a member of a group
+		// that nobody else can reach; try again.
+		g.mu.Unlock()
+	}
 	defer g.mu.Unlock()
 
 	clients := g.getClientsUnlocked(nil)
